@@ -10,6 +10,12 @@ REPO="${VERIF_REPO:-/repo}"
 OUT="$PWD/.build/mochi"
 mkdir -p .build/bin .cache
 
+# The instrumented copy and the check binary are shared: builds are serialised (exclusive
+# lock); a run on /repo then keeps a shared lock, a run on another tree (VERIF_REPO) keeps
+# the exclusive lock until it ends, so that no build replaces a binary that is in use.
+exec 9>.build/lock
+flock -x 9
+
 build() {
   if [ ! -x .build/bin/vinstr ] || [ cmd/vinstr/main.go -nt .build/bin/vinstr ]; then
     (cd cmd/vinstr && go build -o "$VERIF_DIR/.build/bin/vinstr" .) >&2
@@ -33,11 +39,13 @@ case "$1" in
     build
     shift
     if [ "$1" = "C33" ]; then buildrace; fi
+    if [ -z "$VERIF_REPO" ]; then flock -s 9; fi
     exec .build/bin/vcheck check "$@"
     ;;
   replay)
     build
     shift
+    if [ -z "$VERIF_REPO" ]; then flock -s 9; fi
     exec .build/bin/vcheck replay "$@"
     ;;
   build)
